@@ -326,9 +326,12 @@ def derive(base, metas, rng, per_file_cuts):
                 add(src, mi, "two-state-files", note="old state file not yet removed", mutate=mut5)
         # crash while the inputs of a published merge are removed one by one
         if m["label"].startswith("gate merge.done"):
-            later = [x for x in metas[mi + 1:] if x.get("indexes") is not None]
+            # the output of this merge = the complete file on disk that is not published yet; its inputs =
+            # what the first later copy that shows the output no longer shows
+            outs = [f for f in files(src, "index", ".idx") if f not in published and ".m" in f]
+            later = [x for x in metas[mi + 1:] if outs and outs[-1] in (x.get("indexes") or [])]
             if later:
-                gone = [f for f in (m.get("indexes") or []) if f not in set(later[-1]["indexes"]) and os.path.exists(os.path.join(src, "index", f))]
+                gone = [f for f in (m.get("indexes") or []) if f not in set(later[0]["indexes"]) and os.path.exists(os.path.join(src, "index", f))]
                 for k in range(1, len(gone) + 1):
                     def mut6(d, rm=gone[:k]):
                         for f in rm:
